@@ -210,10 +210,12 @@ Definition silent (v : cstate) : Prop := exists hp infl, v = Live HS true true h
 Definition only_silent (s : st) : Prop :=
   forall c v, lookup c (conns s) = Some v -> v = Closed false \/ silent v.
 (* ... or one that has announced the shutdown, has nothing in flight, and waits for its peer to
-   acknowledge the shutdown ping *)
-Definition awaits_peer (v : cstate) : Prop := silent v \/ v = Live Open true true GAnn [].
-Definition only_awaiting_peers (s : st) : Prop :=
-  forall c v, lookup c (conns s) = Some v -> v = Closed false \/ awaits_peer v.
+   acknowledge the shutdown ping.  With accept_http1 a silent connection does not wait: its
+   version detection was cancelled and it closes *)
+Definition awaits_peer (http1 : bool) (v : cstate) : Prop :=
+  (http1 = false /\ silent v) \/ v = Live Open true true GAnn [].
+Definition only_awaiting_peers (http1 : bool) (s : st) : Prop :=
+  forall c v, lookup c (conns s) = Some v -> v = Closed false \/ awaits_peer http1 v.
 
 Ltac inv_step H :=
   unfold Shutdown.step_fn, set_conn, set_acc in H;
@@ -223,8 +225,9 @@ Ltac inv_step H :=
   try (injection H as <-).
 
 Section Runs.
+  Variable http1 : bool.
   Variable admits resolves : gphase -> list kid -> bool.
-  Notation stepf := (step_fn admits resolves).
+  Notation stepf := (step_fn http1 admits resolves).
 
   Definition step (s : st) (l : label) (s' : st) : Prop := stepf s l = Some s'.
 
@@ -254,7 +257,7 @@ Section Runs.
     exists m. split; [exact r1|]. inversion r2; subst. inversion H5; subst. assumption.
   Qed.
 
-  Lemma exec_run s ls s' : exec admits resolves s ls = Some s' <-> run s ls s'.
+  Lemma exec_run s ls s' : exec http1 admits resolves s ls = Some s' <-> run s ls s'.
   Proof.
     split.
     - revert s. induction ls as [|l r IH]; simpl; intros s H.
@@ -349,6 +352,53 @@ Section Runs.
   Proof.
     intros R F c. apply reachable_inv in R. pose proof (inv_fused _ R F) as ns.
     simpl. destruct (acc s); [contradiction| |]; reflexivity.
+  Qed.
+
+  (* ---- ... counted from the FIRING of the signal (the select! is biased) ------------------- *)
+  Lemma ready_stays s l s' : step s l s' -> sig_ready s = true -> sig_ready s' = true.
+  Proof. unfold step. intros H R. destruct l; inv_step H; simpl; auto; congruence. Qed.
+
+  Lemma accept_needs_unfired s c s' : step s (Accept c) s' -> sig_ready s = false.
+  Proof. unfold step. intros H. inv_step H. reflexivity. Qed.
+
+  Lemma no_accept_when_fired s ls s' :
+    run s ls s' -> sig_ready s = true -> forall c, ~ In (Accept c) ls.
+  Proof.
+    induction 1; intros R c; simpl; [tauto|]. intros [e|i].
+    - subst l. apply accept_needs_unfired in H. congruence.
+    - eapply IHrun; eauto using ready_stays.
+  Qed.
+
+  Lemma fires_sets_ready s s' : step s SignalFires s' -> sig_ready s' = true.
+  Proof. unfold step. intros H. inv_step H. reflexivity. Qed.
+
+  Lemma no_accept_after_fire ls s :
+    run init_st ls s ->
+    forall l1 l2, ls = l1 ++ SignalFires :: l2 -> forall c, ~ In (Accept c) l2.
+  Proof.
+    intros R l1 l2 -> c. apply run_app_inv in R as (m & R1 & R2).
+    inversion R2; subst. eapply no_accept_when_fired; eauto using fires_sets_ready.
+  Qed.
+
+  (* once the signal future is ready the listener is not even polled: none of the three outcomes
+     of [incoming.next()] is enabled *)
+  Lemma listener_not_polled_when_fired s :
+    sig_ready s = true ->
+    (forall c, stepf s (Accept c) = None) /\ stepf s IncomingErr = None /\ stepf s IncomingEnd = None.
+  Proof. intros R. simpl. rewrite R. repeat split; intros; destruct (acc s); reflexivity. Qed.
+
+  (* [watch::Sender::send] cannot fail: the accept loop still holds its own receiver *)
+  Lemma send_has_receiver s : Inv s -> acc s = Draining AtSend -> rx_count s <> 0.
+  Proof. intros I A. pose proof (inv_rx _ I) as E. rewrite A in E. simpl in E. lia. Qed.
+
+  Lemma send_always_delivers s s' :
+    reachable s -> step s Send s' -> rx_count s <> 0 /\ version s = 0 /\ version s' = 1.
+  Proof.
+    intros R H. apply reachable_inv in R. unfold step in H. simpl in H.
+    destruct (acc s) as [|[| |]|] eqn:A; try discriminate H.
+    pose proof (send_has_receiver s R A) as nz. pose proof (inv_ver _ R) as V.
+    rewrite A in V. simpl in V. apply Nat.eqb_neq in nz. rewrite nz in H.
+    injection H as <-. simpl. rewrite V. apply Nat.eqb_neq in nz. auto.
   Qed.
 
   (* ---- the signal is consumed once ----------------------------------------------------------- *)
@@ -496,10 +546,10 @@ Section Runs.
         try (destruct (H3 b i); auto; fail).
       all: try (lk c0 c; try rewrite Heqo in *; try discriminate;
                 try (destruct (H3 b i); auto; fail)).
+      all: try (left; right; left; reflexivity).
+      all: try (right; right; left; reflexivity).
       + rewrite N.eqb_refl in i. discriminate.
       + destruct (N.eqb_spec c0 c); [contradiction|]. destruct (H3 b i); auto.
-      + left. right. left. reflexivity.
-      + right. right. left. reflexivity.
       + destruct (H3 true eq_refl); auto.
   Qed.
 
@@ -596,7 +646,7 @@ Section Runs.
   Definition waits (v : cstate) : bool :=
     match v with
     | Closed false => true
-    | Live HS true true _ _ => true
+    | Live HS true true _ _ => negb http1
     | Live Open true true GAnn [] => true
     | _ => false
     end.
@@ -604,7 +654,7 @@ Section Runs.
   Lemma no_deadlock s p :
     Inv s -> acc s = Draining p ->
     (exists l s', step s l s' /\ progress l = true) \/
-    (p = AtWait /\ rx_count s <> 0 /\ only_awaiting_peers s).
+    (p = AtWait /\ rx_count s <> 0 /\ only_awaiting_peers http1 s).
   Proof.
     intros I A. destruct p.
     - left. exists Send. eexists. unfold step. simpl. rewrite A. split; reflexivity.
@@ -615,7 +665,7 @@ Section Runs.
         * right. repeat split; auto. intros c v L. apply lookup_in in L.
           rewrite forallb_forall in Q. specialize (Q _ L). simpl in Q.
           destruct v as [[|] [|] [|] hp infl|[|]]; try discriminate.
-          -- right. left. eexists. eexists. reflexivity.
+          -- right. left. split; [now apply negb_true_iff in Q|]. eexists. eexists. reflexivity.
           -- destruct hp; try discriminate. destruct infl; try discriminate. right. now right.
           -- now left.
       + left. apply forallb_false in Q as ([c v] & i & q). simpl in q.
@@ -624,7 +674,12 @@ Section Runs.
         pose proof (inv_ver _ I) as V. rewrite A in V. simpl in V.
         destruct v as [h gs [|] hp infl|[|]]; try discriminate q.
         * destruct Wf as (Wg & Wh & Wp). rewrite (Wg eq_refl) in *.
-          destruct h; [discriminate q|].
+          destruct h.
+          { (* told during version detection, accept_http1: the connection closes *)
+            simpl in q. destruct http1 eqn:Hh; [|discriminate q].
+            destruct (Wh eq_refl) as [-> ->].
+            exists (ConnCloses c). eexists. unfold step. simpl. rewrite i, Hh.
+            split; reflexivity. }
           destruct infl as [|k r].
           -- destruct hp.
              ++ exists (Goaway c). eexists. unfold step. simpl. rewrite i. split; reflexivity.
@@ -657,8 +712,8 @@ Section Runs.
         - pose proof (inv_rx _ I) as E. rewrite A in E. simpl in E.
           destruct (wsum_pos holds_rx (conns s)) as (c & v & i & hv); [lia|].
           apply (in_lookup _ _ _ (inv_nodup _ I)) in i.
-          destruct (OS c v i) as [->|[(hp & infl & ->)| ->]]; [simpl in hv; lia| |].
-          + exists (HandshakeDone c). eexists. unfold step. simpl. rewrite i.
+          destruct (OS c v i) as [->|[(Hh & hp & infl & ->)| ->]]; [simpl in hv; lia| |].
+          + exists (HandshakeDone c). eexists. unfold step. simpl. rewrite i, Hh.
             split; [reflexivity|]. split; [right|]; reflexivity.
           + exists (GoawayFinal c). eexists. unfold step. simpl. rewrite i.
             split; [reflexivity|]. split; [right|]; reflexivity. }
@@ -724,7 +779,7 @@ Section Runs.
 End Runs.
 
 (* ---- the trace checker accepts only traces of the system ------------------------------------- *)
-Notation run_std := (run admits_std resolves_std).
+Notation run_std h1 := (run h1 admits_std resolves_std).
 
 Lemma observe_app a b : observe (a ++ b) = observe a ++ observe b.
 Proof. apply flat_map_app. Qed.
@@ -746,11 +801,21 @@ Proof.
   destruct age; [intros H; injection H as <-; reflexivity|discriminate].
 Qed.
 
-Lemma explain_observe age s e ls :
-  explain age s e = Some ls -> observe ls = if visible e then [e] else [].
+Lemma closing_observe age h1 s c ls : closing age h1 s c = Some ls -> observe ls = [EConnClosed c].
+Proof.
+  unfold closing. destruct (lookup c (conns s)) as [[[|] ? ? ? ?|?]|];
+    try (intros H; injection H as <-; reflexivity).
+  destruct h1; [|intros H; injection H as <-; reflexivity].
+  destruct (tell age s c) as [t|] eqn:T; [|discriminate]. intros H. injection H as <-.
+  now rewrite observe_app, (observe_tell _ _ _ _ T).
+Qed.
+
+Lemma explain_observe age h1 s e ls :
+  explain age h1 s e = Some ls -> observe ls = if visible e then [e] else [].
 Proof.
   destruct e; simpl; intros H; try discriminate;
     try (injection H as <-; rewrite ?observe_app, ?observe_hs; reflexivity).
+  - exact (closing_observe _ _ _ _ _ H).
   - injection H as <-.
     rewrite !observe_app, observe_closed_holding. destruct (acc s) as [|[| |]|]; reflexivity.
   - destruct (tell age s c) as [t|] eqn:T; [|discriminate]. injection H as <-.
@@ -759,25 +824,26 @@ Proof.
     destruct (acc s) as [|[| |]|]; reflexivity.
 Qed.
 
-Lemma check_trace_sound age s evs s' :
-  check_trace age s evs = Some s' -> exists ls, run_std s ls s' /\ observe ls = filter visible evs.
+Lemma check_trace_sound age h1 s evs s' :
+  check_trace age h1 s evs = Some s' ->
+  exists ls, run_std h1 s ls s' /\ observe ls = filter visible evs.
 Proof.
   revert s. induction evs as [|e r IH]; simpl; intros s H.
   - injection H as <-. exists []. split; constructor.
-  - destruct (explain age s e) as [ls|] eqn:E; [|discriminate].
-    destruct (exec admits_std resolves_std s ls) as [s1|] eqn:X; [|discriminate].
-    destruct (post_ok s1 e); [|discriminate].
+  - destruct (explain age h1 s e) as [ls|] eqn:E; [|discriminate].
+    destruct (exec h1 admits_std resolves_std s ls) as [s1|] eqn:X; [|discriminate].
+    destruct (post_ok h1 s1 e); [|discriminate].
     apply exec_run in X. destruct (IH _ H) as (ls2 & R & O).
     exists (ls ++ ls2). split; [eapply run_app; eauto|].
-    rewrite observe_app, (explain_observe _ _ _ _ E), O. destruct (visible e); reflexivity.
+    rewrite observe_app, (explain_observe _ _ _ _ _ E), O. destruct (visible e); reflexivity.
 Qed.
 
-Lemma trace_ok_sound age evs :
-  trace_ok age evs = true ->
-  exists ls s, run_std init_st ls s /\ observe ls = filter visible evs /\ acc s = Done.
+Lemma trace_ok_sound age h1 evs :
+  trace_ok age h1 evs = true ->
+  exists ls s, run_std h1 init_st ls s /\ observe ls = filter visible evs /\ acc s = Done.
 Proof.
-  unfold trace_ok. destruct (check_trace age init_st evs) as [s|] eqn:C; [|discriminate].
-  intros D. destruct (check_trace_sound _ _ _ _ C) as (ls & R & O).
+  unfold trace_ok. destruct (check_trace age h1 init_st evs) as [s|] eqn:C; [|discriminate].
+  intros D. destruct (check_trace_sound _ _ _ _ _ C) as (ls & R & O).
   exists ls, s. repeat split; auto. destruct (acc s); try discriminate; reflexivity.
 Qed.
 
@@ -827,16 +893,16 @@ Proof.
   - intros H. apply in_flat_map. eexists. split; [exact H|simpl; auto].
 Qed.
 
-Lemma fired_before_ready admits resolves s ls s' :
-  run admits resolves s ls s' -> sig_ready s' = true -> sig_ready s = true \/ In SignalFires ls.
+Lemma fired_before_ready h1 admits resolves s ls s' :
+  run h1 admits resolves s ls s' -> sig_ready s' = true -> sig_ready s = true \/ In SignalFires ls.
 Proof.
   induction 1; intros Rd; [now left|].
   destruct (IHrun Rd) as [r|i]; [|right; now right].
-  unfold step in H. destruct l; inv_step H; simpl in *; auto.
+  unfold step in H. destruct l; inv_step H; simpl in *; auto; congruence.
 Qed.
 
-Lemma observed_needs_ready admits resolves s s' :
-  step admits resolves s SignalObserved s' -> sig_ready s = true.
+Lemma observed_needs_ready h1 admits resolves s s' :
+  step h1 admits resolves s SignalObserved s' -> sig_ready s = true.
 Proof. unfold step. intros H. inv_step H. reflexivity. Qed.
 
 Lemma observe_only_fires l2 :
@@ -844,10 +910,11 @@ Lemma observe_only_fires l2 :
 Proof. induction 1; simpl; [constructor|]. subst. simpl. constructor; auto. Qed.
 
 (* what an accepted trace guarantees, in terms of the observed events alone *)
-Lemma trace_ok_properties age evs :
-  trace_ok age evs = true ->
+Lemma trace_ok_properties age h1 evs :
+  trace_ok age h1 evs = true ->
   let evs := filter visible evs in
-  (forall e e1 e2 c, e = ESignal \/ e = EIncomingEnd -> evs = e1 ++ e :: e2 -> ~ In (EAccept c) e2) /\
+  (forall e e1 e2 c, e = ESignalFired \/ e = ESignal \/ e = EIncomingEnd ->
+                     evs = e1 ++ e :: e2 -> ~ In (EAccept c) e2) /\
   (forall e1 e2, evs = e1 ++ ESignal :: e2 -> In ESignalFired e1) /\
   (forall e1 e2, evs = e1 ++ EServeReturned :: e2 ->
      Forall (fun e => e = ESignalFired) e2 /\
@@ -855,37 +922,40 @@ Lemma trace_ok_properties age evs :
   (forall c k, In (ECallStart c k) evs -> In (ECallDone c k) evs \/ In (EPeerAbort c) evs) /\
   (forall e1 e2 c k, evs = e1 ++ EGoawayFinal c :: e2 -> ~ In (ECallStart c k) e2).
 Proof.
-  intros T. destruct (trace_ok_sound _ _ T) as (ls & s & R & O & D). rewrite <- O. clear O evs T.
+  intros T. destruct (trace_ok_sound _ _ _ T) as (ls & s & R & O & D). rewrite <- O. clear O evs T.
   pose proof hyper_std_contract as HC. cbv zeta.
   split; [|split; [|split; [|split]]].
   - intros e e1 e2 c He E i.
     destruct (observe_split _ _ _ _ E) as (l1 & l & l2 & -> & O1 & Ol & O2). subst e2.
     apply obs_accept in i. revert i.
-    eapply (no_accept_after_signal _ _ _ _ R l); [|reflexivity].
-    destruct He; subst e; destruct l; simpl in Ol; try discriminate; auto.
+    destruct He as [->|He].
+    + assert (l = SignalFires) as -> by (destruct l; simpl in Ol; try discriminate; reflexivity).
+      eapply (no_accept_after_fire _ _ _ _ _ R); reflexivity.
+    + eapply (no_accept_after_signal _ _ _ _ _ R l); [|reflexivity].
+      destruct He; subst e; destruct l; simpl in Ol; try discriminate; auto.
   - intros e1 e2 E.
     destruct (observe_split _ _ _ _ E) as (l1 & l & l2 & -> & O1 & Ol & O2). subst e1.
     assert (l = SignalObserved) as -> by (destruct l; simpl in Ol; try discriminate; reflexivity).
     apply run_app_inv in R as (m & R1 & R2). inversion R2; subst.
     apply observed_needs_ready in H2.
-    destruct (fired_before_ready _ _ _ _ _ R1 H2) as [r|i]; [discriminate r|].
+    destruct (fired_before_ready _ _ _ _ _ _ R1 H2) as [r|i]; [discriminate r|].
     apply in_flat_map. exists SignalFires. split; [exact i|now left].
   - intros e1 e2 E.
     destruct (observe_split _ _ _ _ E) as (l1 & l & l2 & -> & O1 & Ol & O2).
     assert (l = ServeReturns) as -> by (destruct l; simpl in Ol; try discriminate; reflexivity).
     apply run_app_inv in R as (m & R1 & R2). inversion R2; subst.
-    pose proof (run_inv _ _ _ _ _ inv_init R1) as Im.
-    assert (Rm : reachable admits_std resolves_std m) by (exists l1; exact R1).
-    destruct (serve_returns_only_when_all_closed _ _ _ _ Rm H2) as [AC Dm].
-    destruct (done_run _ _ _ _ _ (step_inv _ _ _ _ _ Im H2) Dm H4) as [F2 _].
+    pose proof (run_inv _ _ _ _ _ _ inv_init R1) as Im.
+    assert (Rm : reachable h1 admits_std resolves_std m) by (exists l1; exact R1).
+    destruct (serve_returns_only_when_all_closed _ _ _ _ _ Rm H2) as [AC Dm].
+    destruct (done_run _ _ _ _ _ _ (step_inv _ _ _ _ _ _ Im H2) Dm H4) as [F2 _].
     split; [now apply observe_only_fires|]. intros c i. apply obs_accept in i.
-    assert (Rf : run_std init_st (l1 ++ [ServeReturns]) m0) by (eapply run_app; eauto using run_one).
-    destruct (served_connections_closed_before_return _ _ _ _ Rf Dm c) as [_ [d|d]].
+    assert (Rf : run_std h1 init_st (l1 ++ [ServeReturns]) m0) by (eapply run_app; eauto using run_one).
+    destruct (served_connections_closed_before_return _ _ _ _ _ Rf Dm c) as [_ [d|d]].
     + apply in_or_app. now left.
     + apply in_app_or in d as [d|[d|[]]]; [|discriminate]. left. now apply obs_closed.
     + apply in_app_or in d as [d|[d|[]]]; [|discriminate]. right. now apply obs_abort.
   - intros c k i. apply obs_start in i.
-    destruct (every_accepted_call_completed _ _ HC _ _ R D c k i) as [d|d].
+    destruct (every_accepted_call_completed _ _ _ HC _ _ R D c k i) as [d|d].
     + left. now apply obs_done.
     + right. now apply obs_abort.
   - intros e1 e2 c k E i.
@@ -893,26 +963,29 @@ Proof.
     assert (l = GoawayFinal c) as ->.
     { destruct l; simpl in Ol; try discriminate. now injection Ol as <-. }
     apply obs_start in i. apply run_app_inv in R as (m & R1 & R2). inversion R2; subst.
-    eapply (no_new_call_past_final _ _ HC _ _ _ c H4); eauto.
+    eapply (no_new_call_past_final _ _ _ HC _ _ _ c H4); eauto.
     eapply goaway_final_is_final; eauto.
 Qed.
 
 (* the assertion behind the event EQuiet: in a stalled state no move of tonic, hyper or a handler
    is enabled - only the peers of connections still in their handshake can move *)
-Lemma stalled_refuses_progress admits resolves s :
-  stalled_b s = true ->
+Lemma stalled_refuses_progress h1 admits resolves s :
+  stalled_b h1 s = true ->
   acc s = Draining AtWait /\ rx_count s <> 0 /\ only_silent s /\
-  forall l s', step admits resolves s l s' -> progress l = false.
+  (h1 = true -> all_closed s) /\
+  forall l s', step h1 admits resolves s l s' -> progress l = false.
 Proof.
   unfold stalled_b. destruct (acc s) as [|[| |]|] eqn:A; try discriminate.
   intros H. apply andb_true_iff in H as [nz Q]. apply negb_true_iff, Nat.eqb_neq in nz.
   rewrite forallb_forall in Q.
-  assert (QL : forall c v, lookup c (conns s) = Some v -> quiet v = true).
+  assert (QL : forall c v, lookup c (conns s) = Some v -> quiet h1 v = true).
   { intros c v L. apply lookup_in in L. exact (Q _ L). }
   repeat split; auto.
   - intros c v L. specialize (QL c v L).
     destruct v as [[|] [|] [|] hp infl|[|]]; try discriminate;
       [right; eexists; eexists; reflexivity|now left].
+  - intros -> c v L. specialize (QL c v L).
+    destruct v as [[|] [|] [|] hp infl|[|]]; try discriminate; reflexivity.
   - intros l s' H. unfold step in H.
     destruct l; try reflexivity; inv_step H; try congruence;
       try (apply Nat.eqb_eq in Heqb; congruence);
@@ -920,37 +993,39 @@ Proof.
       | L : lookup _ _ = Some _ |- _ =>
           apply QL in L; simpl in L;
           repeat match type of L with context [match ?x with _ => _ end] => destruct x end;
-          discriminate L
+          try discriminate L
       end.
+    all: apply andb_true_iff in Heqb as [-> _]; discriminate.
 Qed.
 
 (* ---- the same facts stated over reachable states ---------------------------------------------- *)
 Section Reachable.
+  Variable http1 : bool.
   Variable admits resolves : gphase -> list kid -> bool.
   Hypothesis HC : hyper_contract admits resolves.
 
   Lemma serve_returns_iff_reachable s :
-    reachable admits resolves s -> acc s = Draining AtWait ->
-    ((exists s', step admits resolves s ServeReturns s') <-> all_closed s).
-  Proof. intros R. apply serve_returns_iff. exact (reachable_inv _ _ _ R). Qed.
+    reachable http1 admits resolves s -> acc s = Draining AtWait ->
+    ((exists s', step http1 admits resolves s ServeReturns s') <-> all_closed s).
+  Proof. intros R. apply serve_returns_iff. exact (reachable_inv _ _ _ _ R). Qed.
 
   Lemma done_terminal_reachable s l s' :
-    reachable admits resolves s -> acc s = Done -> step admits resolves s l s' ->
+    reachable http1 admits resolves s -> acc s = Done -> step http1 admits resolves s l s' ->
     l = SignalFires /\ acc s' = Done.
-  Proof. intros R. apply done_terminal. exact (reachable_inv _ _ _ R). Qed.
+  Proof. intros R. apply done_terminal. exact (reachable_inv _ _ _ _ R). Qed.
 
   Lemma no_deadlock_reachable s p :
-    reachable admits resolves s -> acc s = Draining p ->
-    (exists l s', step admits resolves s l s' /\ progress l = true) \/
-    (p = AtWait /\ rx_count s <> 0 /\ only_awaiting_peers s).
-  Proof. intros R. apply (no_deadlock _ _ HC). exact (reachable_inv _ _ _ R). Qed.
+    reachable http1 admits resolves s -> acc s = Draining p ->
+    (exists l s', step http1 admits resolves s l s' /\ progress l = true) \/
+    (p = AtWait /\ rx_count s <> 0 /\ only_awaiting_peers http1 s).
+  Proof. intros R. apply (no_deadlock _ _ _ HC). exact (reachable_inv _ _ _ _ R). Qed.
 
   Lemma serve_can_return_reachable s :
-    reachable admits resolves s -> acc s <> Selecting ->
-    exists ls s', run admits resolves s ls s' /\
+    reachable http1 admits resolves s -> acc s <> Selecting ->
+    exists ls s', run http1 admits resolves s ls s' /\
                   Forall (fun l => progress l = true \/ is_peer l = true) ls /\
                   acc s' = Done /\ length ls <= mu s.
-  Proof. intros R. apply (serve_can_return _ _ HC). exact (reachable_inv _ _ _ R). Qed.
+  Proof. intros R. apply (serve_can_return _ _ _ HC). exact (reachable_inv _ _ _ _ R). Qed.
 End Reachable.
 
 (* ---- between the firing of the signal and its observation ------------------------------------ *)
@@ -958,11 +1033,18 @@ End Reachable.
 Definition sig_pending (s : st) : Prop :=
   acc s = Selecting /\ sig_ready s = true /\ sig_fused s = false.
 
+(* the moves of serve_internal's select loop *)
+Definition is_select_move (l : label) : bool :=
+  match l with Accept _ | IncomingErr | IncomingEnd | SignalObserved => true | _ => false end.
+
 Section Pending.
+  Variable http1 : bool.
   Variable admits resolves : gphase -> list kid -> bool.
+  Notation stepp := (step http1 admits resolves).
+  Notation runp := (run http1 admits resolves).
 
   Lemma count_fires s ls s' :
-    run admits resolves s ls s' ->
+    runp s ls s' ->
     count_occ label_eq_dec ls SignalFires + b2n (sig_ready s) = b2n (sig_ready s').
   Proof.
     induction 1; [reflexivity|]. rewrite <- IHrun. clear IHrun H0. unfold step in H.
@@ -970,38 +1052,152 @@ Section Pending.
   Qed.
 
   Lemma signal_fires_once ls s :
-    run admits resolves init_st ls s -> count_occ label_eq_dec ls SignalFires <= 1.
+    runp init_st ls s -> count_occ label_eq_dec ls SignalFires <= 1.
   Proof. intros R. pose proof (count_fires _ _ _ R). destruct (sig_ready s); simpl in *; lia. Qed.
 
   (* the branch can be taken at any moment from then on ... *)
   Lemma pending_enables_observation s :
     sig_pending s ->
-    exists s', step admits resolves s SignalObserved s' /\ acc s' = Draining AtSend.
+    exists s', stepp s SignalObserved s' /\ acc s' = Draining AtSend.
   Proof.
     intros (A & R & F). eexists. unfold step. simpl. rewrite A, R, F. split; reflexivity.
   Qed.
 
-  (* ... and nothing but taking it (or the listener ending) changes that: in particular further
-     connections can be accepted in between, and the branch stays enabled *)
-  Lemma pending_stable s l s' :
-    step admits resolves s l s' -> sig_pending s ->
-    l <> SignalObserved -> l <> IncomingEnd -> sig_pending s'.
+  (* ... and it is the ONLY move the select loop has: the signal is polled first *)
+  Lemma pending_select_move s l s' :
+    sig_pending s -> stepp s l s' -> is_select_move l = true ->
+    l = SignalObserved /\ acc s' = Draining AtSend.
   Proof.
-    unfold step, sig_pending. intros H (A & R & F) n1 n2.
+    unfold step. intros (A & R & F) H M.
+    destruct l; try discriminate M; simpl in H; rewrite A, R in H; try discriminate H.
+    rewrite F in H. injection H as <-. auto.
+  Qed.
+
+  (* nothing but taking the branch changes that *)
+  Lemma pending_stable s l s' :
+    stepp s l s' -> sig_pending s -> l <> SignalObserved -> sig_pending s'.
+  Proof.
+    unfold step, sig_pending. intros H (A & R & F) n1.
     destruct l; inv_step H; simpl; try congruence; auto.
   Qed.
 
   Lemma signal_enabled_until_observed s ls s' :
-    run admits resolves s ls s' -> sig_pending s ->
-    ~ In SignalObserved ls -> ~ In IncomingEnd ls -> sig_pending s'.
+    runp s ls s' -> sig_pending s -> ~ In SignalObserved ls -> sig_pending s'.
   Proof.
-    induction 1; intros P n1 n2; [assumption|]. simpl in n1, n2.
-    apply IHrun; [|tauto|tauto].
+    induction 1; intros P n1; [assumption|]. simpl in n1.
+    apply IHrun; [|tauto].
     eapply pending_stable; eauto; intros ->; tauto.
   Qed.
 
   Lemma fires_makes_pending s s' :
-    step admits resolves s SignalFires s' -> acc s = Selecting -> sig_fused s = false ->
+    stepp s SignalFires s' -> acc s = Selecting -> sig_fused s = false ->
     sig_pending s'.
   Proof. unfold step, sig_pending. intros H A F. inv_step H. simpl. auto. Qed.
+
+  (* THE SELECT LOOP IS LEFT: from the firing on, either the accept loop's task has not run yet -
+     then the signal branch is still enabled - or the first thing it did was to take the signal
+     branch.  No number of ready connections can delay that: what is left to assume is only that
+     the runtime polls a woken task. *)
+  Lemma selecting_left s ls s' :
+    runp s ls s' -> sig_pending s ->
+    (Forall (fun l => is_select_move l = false) ls /\ sig_pending s') \/
+    (exists l1 l2, ls = l1 ++ SignalObserved :: l2 /\
+                   Forall (fun l => is_select_move l = false) l1).
+  Proof.
+    induction 1; intros P; [left; split; [constructor|assumption]|].
+    destruct (is_select_move l) eqn:M.
+    - destruct (pending_select_move _ _ _ P H M) as [-> _].
+      right. exists [], ls. split; [reflexivity|constructor].
+    - assert (l <> SignalObserved) as ne by (intros ->; discriminate M).
+      destruct (IHrun (pending_stable _ _ _ H P ne)) as [[F P']|(l1 & l2 & -> & F)].
+      + left. split; [constructor; assumption|assumption].
+      + right. exists (l :: l1), l2. split; [reflexivity|constructor; assumption].
+  Qed.
 End Pending.
+
+(* ---- the meaning of the event EIdleAfterFire ---------------------------------------------------- *)
+Lemma check_trace_app age h1 e1 : forall s e2 s',
+  check_trace age h1 s (e1 ++ e2) = Some s' ->
+  exists m, check_trace age h1 s e1 = Some m /\ check_trace age h1 m e2 = Some s'.
+Proof.
+  induction e1 as [|e r IH]; simpl; intros s e2 s' H; [eauto|].
+  destruct (explain age h1 s e) as [ls|]; [|discriminate].
+  destruct (exec h1 admits_std resolves_std s ls) as [s1|]; [|discriminate].
+  destruct (post_ok h1 s1 e); [|discriminate]. eauto.
+Qed.
+
+Lemma left_selecting_cause h1 admits resolves s ls s' :
+  run h1 admits resolves s ls s' -> acc s = Selecting -> acc s' <> Selecting ->
+  In SignalObserved ls \/ In IncomingEnd ls.
+Proof.
+  induction 1; intros A N; [contradiction|].
+  destruct (label_eq_dec l SignalObserved) as [->|n1]; [left; now left|].
+  destruct (label_eq_dec l IncomingEnd) as [->|n2]; [right; now left|].
+  assert (acc m = Selecting) as Am.
+  { unfold step in H. destruct l; inv_step H; simpl; congruence. }
+  destruct (IHrun Am N) as [i|i]; [left|right]; now right.
+Qed.
+
+(* the checker accepts the mark "first quiescent point after the signal fired" only if, among the
+   events before it, the accept loop took the signal branch (or saw the listener end) *)
+Lemma idle_after_fire_means_left age h1 evs :
+  trace_ok age h1 evs = true ->
+  forall e1 e2, evs = e1 ++ EIdleAfterFire :: e2 -> In ESignal e1 \/ In EIncomingEnd e1.
+Proof.
+  unfold trace_ok. destruct (check_trace age h1 init_st evs) as [s|] eqn:C; [|discriminate].
+  intros _ e1 e2 ->. apply check_trace_app in C as (m & C1 & C2).
+  destruct (check_trace_sound _ _ _ _ _ C1) as (ls & R & O).
+  simpl in C2. destruct (acc m) eqn:A; try discriminate C2.
+  - destruct (left_selecting_cause _ _ _ _ _ _ R eq_refl) as [i|i]; [congruence| |].
+    + left. assert (In ESignal (observe ls)) as J
+        by (apply in_flat_map; exists SignalObserved; split; [exact i|now left]).
+      rewrite O in J. now apply filter_In in J.
+    + right. assert (In EIncomingEnd (observe ls)) as J
+        by (apply in_flat_map; exists IncomingEnd; split; [exact i|now left]).
+      rewrite O in J. now apply filter_In in J.
+  - destruct (left_selecting_cause _ _ _ _ _ _ R eq_refl) as [i|i]; [congruence| |].
+    + left. assert (In ESignal (observe ls)) as J
+        by (apply in_flat_map; exists SignalObserved; split; [exact i|now left]).
+      rewrite O in J. now apply filter_In in J.
+    + right. assert (In EIncomingEnd (observe ls)) as J
+        by (apply in_flat_map; exists IncomingEnd; split; [exact i|now left]).
+      rewrite O in J. now apply filter_In in J.
+Qed.
+
+(* ---- serve_with_shutdown over TCP: what the completion of the trace adds ---------------------- *)
+(* the events a tcp run cannot observe *)
+Definition tcp_hidden (e : ev) : bool :=
+  match e with EAccept _ | EGoaway _ | EGoawayFinal _ | EConnClosed _ => true | _ => false end.
+
+Lemma close_all_hidden cs : filter (fun e => negb (tcp_hidden e)) (close_all cs) = [].
+Proof. induction cs as [|c r IH]; simpl; auto. Qed.
+
+(* [complete_tcp] only inserts unobservable events: the observed ones stay, in their order *)
+Lemma complete_tcp_keeps evs : forall known,
+  Forall (fun e => tcp_hidden e = false) evs ->
+  filter (fun e => negb (tcp_hidden e)) (complete_tcp known evs) = evs.
+Proof.
+  induction evs as [|e r IH]; intros known F; [reflexivity|].
+  inversion F as [|? ? He Fr]; subst.
+  destruct e; try discriminate He; simpl; rewrite ?IH; auto.
+  - destruct (mem c known); simpl; now rewrite IH.
+  - rewrite filter_app, close_all_hidden. simpl. now rewrite IH.
+Qed.
+
+Lemma filter_comm {A} (p q : A -> bool) l : filter p (filter q l) = filter q (filter p l).
+Proof.
+  induction l as [|x r IH]; simpl; [reflexivity|].
+  destruct (q x) eqn:Q, (p x) eqn:P; simpl; rewrite ?Q, ?P, IH; reflexivity.
+Qed.
+
+Lemma tcp_trace_sound evs :
+  trace_ok false false (complete_tcp [] evs) = true ->
+  Forall (fun e => tcp_hidden e = false) evs ->
+  exists ls s, run_std false init_st ls s /\
+               filter (fun e => negb (tcp_hidden e)) (observe ls) = filter visible evs /\
+               acc s = Done.
+Proof.
+  intros T F. destruct (trace_ok_sound _ _ _ T) as (ls & s & R & O & D).
+  exists ls, s. repeat split; auto.
+  now rewrite O, filter_comm, (complete_tcp_keeps _ _ F).
+Qed.
